@@ -86,6 +86,13 @@ def build_harness(race=False):
         cmd = ["go", "build", "-tags", "verif", "-o", os.path.join(BIN, name)]
         if race:
             cmd.insert(2, "-race")
+        if REPO != "/repo":
+            # a check run against a scratch copy of the repository (mutation rehearsal): same go.mod, other replace target
+            alt = os.path.join(d, "go.alt.mod")
+            with open(alt, "w") as fh:
+                fh.write(open(os.path.join(d, "go.mod")).read().replace("=> /repo", "=> " + REPO))
+            sh(["cp", os.path.join(REPO, "go.sum"), os.path.join(d, "go.alt.sum")])
+            cmd.append("-modfile=" + alt)
         p = sh(cmd + ["."], cwd=d, env=GOENV)
     if p.returncode != 0:
         return None, p.stdout + p.stderr
@@ -270,6 +277,70 @@ def run_family(fam, n, seed, tier, replay=None, extra=None, race=False, timeout=
             rows.append({"case": c, "go": go, "m": m.get("m")})
     os.unlink(hout)
     os.unlink(mout)
+    return rows
+
+
+def run_family_sharded(fam, n, seed, tier, shards=16, replay=None, extra=None, timeout=3600):
+    """like run_family, with the generated cases spread over `shards` harness processes"""
+    if replay or shards <= 1:
+        return run_family(fam, n, seed, tier, replay=replay, extra=extra, timeout=timeout)
+    exe, err = build_harness()
+    if exe is None:
+        raise RuntimeError("harness build failed (tie T2 cannot be evaluated):\n" + err)
+    os.makedirs(WORK, exist_ok=True)
+    corpus = os.path.join(VERIF, "corpus", fam + ".jsonl")
+    procs = []
+    for i in range(shards):
+        cmd = [exe, "-fam", fam, "-seed", str(seed), "-n", str(n), "-tier", tier, "-shard", str(i), "-shards", str(shards)]
+        if os.path.exists(corpus):
+            cmd += ["-corpus", corpus]
+        if extra:
+            cmd += extra
+        hout = os.path.join(WORK, "%s_%d_s%d.go.jsonl" % (fam, os.getpid(), i))
+        fh = open(hout, "w")
+        procs.append((subprocess.Popen(cmd, stdout=fh, stderr=subprocess.PIPE, text=True, env=GOENV), fh, hout))
+    rows = []
+    crash = None
+    for p, fh, hout in procs:
+        try:
+            _, err = p.communicate(timeout=timeout)
+        except subprocess.TimeoutExpired:
+            p.kill()
+            _, err = p.communicate()
+        fh.close()
+        if p.returncode != 0 and crash is None:
+            last = None
+            for mm in re.finditer(r"^CASE (\S+)$", err or "", flags=re.M):
+                last = mm.group(1)
+            crash = HarnessCrash(fam, last, (err or "")[-3000:], seed, tier) if last else RuntimeError("harness failed:\n" + (err or "")[-3000:])
+    if crash:
+        for _, _, hout in procs:
+            if os.path.exists(hout):
+                os.unlink(hout)
+        raise crash
+    allout = os.path.join(WORK, "%s_%d_all.go.jsonl" % (fam, os.getpid()))
+    with open(allout, "w") as out:
+        for _, _, hout in procs:
+            with open(hout) as f:
+                for line in f:
+                    out.write(line)
+            os.unlink(hout)
+    mout = allout.replace(".go.jsonl", ".m.jsonl")
+    with open(allout) as fin, open(mout, "w") as fout:
+        p = subprocess.run([driver_path()], stdin=fin, stdout=fout, stderr=subprocess.PIPE, text=True, timeout=timeout)
+    if p.returncode != 0:
+        raise RuntimeError("driver failed:\n" + p.stderr[-4000:])
+    with open(allout) as f1, open(mout) as f2:
+        for l1, l2 in zip(f1, f2):
+            c = json.loads(l1)
+            m = json.loads(l2)
+            if m.get("id") != c.get("id"):
+                raise RuntimeError("driver/harness line mismatch: %s vs %s" % (m.get("id"), c.get("id")))
+            go = c.pop("go")
+            rows.append({"case": c, "go": go, "m": m.get("m")})
+    os.unlink(allout)
+    os.unlink(mout)
+    rows.sort(key=lambda r: (not str(r["case"].get("id", "")).startswith(fam + "-"), r["case"].get("id")))
     return rows
 
 
